@@ -19,7 +19,7 @@ A = "alice@example.com"
 B = "bob@example.com"
 CRLF = b"\r\n"
 
-CLASSES = ["NoBoundary", "DedupForeignForm", "FoldWs", "DupCte", "CtNameDropped"]
+CLASSES = []   # every class of the first build was repaired (fixes/C02-1..6); nothing is excused
 
 
 # ---------------------------------------------------------------------------
@@ -532,7 +532,7 @@ def comsg(o):
     return "None" if o is None else "(Some %s)" % cmsg(o)
 
 
-COQ_HEAD = C.COQ_CASE_HEADER + ("From Raven Require Import Base.GoStrMime Spec.Mime Model.MimeHeaders Model.MimeStore Spec.MimeCheck.\n"
+COQ_HEAD = C.COQ_CASE_HEADER + ("From Raven Require Import Base.GoStrMime Spec.Mime Model.MimeHeaders Model.MimeStore Spec.MimeCheck Proof.MimeRoundtrip.\n"
                                 "Local Open Scope nat_scope.\nLocal Open Scope list_scope.\n")
 
 
@@ -584,7 +584,7 @@ def literal_of(recv):
     return recv[m.end():m.end() + n]
 
 
-BOUND = re.compile(rb"----=_Part_([A-Za-z0-9\-]*)_(\d+)")
+BOUND = re.compile(rb"----=_Part_([A-Za-z0-9\-]*)_(\d+)(?:_(\d+))?")
 
 
 def canon_boundaries(octets):
@@ -668,7 +668,7 @@ def coq_eval(worlds):
         body += "Definition pred%d := Eval vm_compute in false_positions 0 (zip_with omsg_eqb (results ms%d) os%d).\nPrint pred%d.\n" % (w, w, w, w)
         body += "Definition spec%d := Eval vm_compute in false_positions 0 (zip_with spec_ok ms%d os%d).\nPrint spec%d.\n" % (w, w, w, w)
         body += "Definition mspec%d := Eval vm_compute in false_positions 0 (zip_with spec_ok ms%d (results ms%d)).\nPrint mspec%d.\n" % (w, w, w, w)
-        body += "Definition cls%d := Eval vm_compute in classes ms%d.\nPrint cls%d.\n" % (w, w, w)
+        body += "Definition wf%d := Eval vm_compute in false_positions 0 (map wf_msg ms%d).\nPrint wf%d.\n" % (w, w, w)
         # cross-checks: serialisation twin, decoders, extractAllHeaders (string level)
         rawpos = [k for k, it in enumerate(items) if it.get("raw") is not None]
         body += "Definition raws%d : list str := [\n%s].\n" % (w, ";\n".join(cstr(items[k]["raw"]) for k in rawpos))
@@ -699,14 +699,10 @@ def coq_eval(worlds):
         return [int(x) for x in txt.strip("[]").replace("%nat", "").split(";") if x.strip()]
     out = []
     for w, items in enumerate(worlds):
-        d = {k: nums("%s%d" % (k, w)) for k in ("pred", "spec", "mspec", "ser", "dec", "eah")}
-        txt = C.parse_coq_list_out(log, "cls%d" % w)
-        if txt is None or any(v is None for v in d.values()):
+        d = {k: nums("%s%d" % (k, w)) for k in ("pred", "spec", "mspec", "ser", "dec", "eah", "wf")}
+        if any(v is None for v in d.values()):
             return None, log
-        cl = [x.strip() for x in txt.strip().strip("[]").split(";")] if txt.strip() != "[]" else []
-        d["cls"] = [None if x == "None" else x.replace("Some", "").strip() for x in cl]
-        if len(d["cls"]) != len(items):
-            return None, "class list length mismatch\n" + log[-1500:]
+        d["cls"] = [None] * len(items)
         out.append(d)
     return out, log
 
@@ -877,22 +873,28 @@ def judge(chk, sc, ev):
                         tag, d["via"], d["submitted"][:160], (d.get("f1") or b"")[:200]), payload)
             elif pos in e["pred"]:
                 mismatches.append((wi, pos, "pred"))
-            if pos in e["mspec"] and cls is None:
-                chk.broken_obligation("model violates msg_equiv on a message with classify = None (theorem c02_roundtrip would be false): %r" % d["submitted"][:200], payload)
+            if pos in e["wf"]:
+                cov["outside_wf_msg"] = cov.get("outside_wf_msg", 0) + 1
+                if not it["msg"].get("_malformed") and not msgs[it["idx"]].get("_malformed"):
+                    chk.notes.append("a generated message does not satisfy wf_msg (hypothesis of c02_roundtrip): %r" % d["submitted"][:120])
+            elif pos in e["mspec"]:
+                chk.broken_obligation("model violates msg_equiv on a well-formed message (contradicts c02_roundtrip: harness encoding error): %r" % d["submitted"][:200], payload)
             # repeated fetch
             f1, f2 = d.get("f1"), d.get("f2")
             cov["traces_validated_against_impl"] += 1
             if f1 != f2:
-                if f1 is not None and f2 is not None and canon_boundaries(f1) == canon_boundaries(f2) and it["msg"]["body"][0] == "multi":
-                    chk.violation("%s: two fetches of one multipart message return different octets (boundary taken from the clock)" % tag,
-                                  dict(payload, fetched2=C.latin(f2)), cls="UnstableBoundary")
-                else:
+                unclassified_violation = True
+                same = f1 is not None and f2 is not None and canon_boundaries(f1) == canon_boundaries(f2)
+                chk.violation("%s: two fetches of the same message return different octets%s: %r vs %r" % (
+                    tag, " (only the generated boundaries differ)" if same else "", (f1 or b"")[:120], (f2 or b"")[:120]),
+                    dict(payload, fetched2=C.latin(f2 or b"")))
+            # generated boundaries: shape of Model/MimeBoundary.v and pairwise distinct within the message
+            if f1:
+                bl = re.findall(rb'boundary="(----=_Part_[^"]*)"', f1)
+                cov["boundaries_seen"] = cov.get("boundaries_seen", 0) + len(bl)
+                if len(set(bl)) != len(bl) or any(not re.fullmatch(rb"----=_Part_[A-Za-z0-9\-]*_\d+_\d+", b) for b in bl):
                     unclassified_violation = True
-                    chk.violation("%s: two fetches of the same message differ beyond generated boundaries: %r vs %r" % (tag, (f1 or b"")[:120], (f2 or b"")[:120]),
-                                  dict(payload, fetched2=C.latin(f2 or b"")))
-            if expected and it["idx"] in expected and expected[it["idx"]] in CLASSES:
-                if pos not in e["spec"] and expected[it["idx"]] != "DedupForeignForm":
-                    chk.notes.append("corpus witness of class %s (%s) no longer fails on the implementation" % (expected[it["idx"]], tag))
+                    chk.violation("%s: regenerated boundaries collide or do not have the modelled shape: %r" % (tag, bl[:6]), payload)
     # independence: the same message in two worlds with different histories
     for i, info in per_msg.items():
         c = info["canon"]
@@ -905,12 +907,8 @@ def judge(chk, sc, ev):
             if sa == sb and a != b:
                 payload = {"suite": "independence", "tag": tag, "submitted": C.latin(sa), "fetched_world0": C.latin(a), "fetched_world1": C.latin(b),
                            "history0": [C.latin(x["d"]["submitted"]) for x in worlds[0]], "history1": [C.latin(x["d"]["submitted"]) for x in worlds[1]]}
-                if "DedupForeignForm" in info["cls"]:
-                    chk.violation("%s: what a message returns depends on the other stored messages (blob with the same decoded content stored first in another encoded form)" % tag,
-                                  payload, cls="DedupForeignForm")
-                else:
-                    unclassified_violation = True
-                    chk.violation("%s: the same message is returned differently under two histories and the model sees no blob conflict: %r vs %r" % (tag, a[:160], b[:160]), payload)
+                unclassified_violation = True
+                chk.violation("%s: the same message is returned differently under two histories: %r vs %r" % (tag, a[:160], b[:160]), payload)
     cov["disagreements_checked"] += len(mismatches)
     st = chk.__dict__.setdefault("_c02", {"unclassified": False, "mismatch": []})
     st["unclassified"] = st["unclassified"] or unclassified_violation
